@@ -573,11 +573,11 @@ def _rearrange_to_explicit_ode(y: np.ndarray, coeff_b: np.ndarray, fx: np.ndarra
             stacklevel=2,
         )
 
-    # copy: fx is the array returned by the user's right-hand-side function and must not be modified
-    result = np.array(fx, dtype=float)
+    # fx is the value returned by the user's right-hand-side function (array or scalar): never update it in place
+    result = fx
     # Go through all rows except the last-element.
     for i, b in enumerate(coeff_b[:-1]):
         # array of size N: a_k(x_n) * (d^k y(x_n) / d x^k)
-        result -= b * y[i]
+        result = result - b * y[i]
 
     return result / coeff_b[-1]
